@@ -69,8 +69,11 @@ func fileInfoFromOS(p string, fi os.FileInfo) *FileInfo {
 func errFromOS(err error) error {
 	// Remove path from path errors so it's not returned to the user
 	var perr *fs.PathError
+	var lerr *os.LinkError
 	if errors.As(err, &perr) {
 		err = fmt.Errorf("%s: %w", perr.Op, perr.Err)
+	} else if errors.As(err, &lerr) {
+		err = fmt.Errorf("%s: %w", lerr.Op, lerr.Err)
 	}
 
 	if errors.Is(err, fs.ErrNotExist) || errors.Is(err, syscall.ENOTDIR) {
